@@ -20,8 +20,9 @@
 (*   Call    pcall(fn): errors in the function and a missing function are     *)
 (*           in-band; a timeout is re-raised; a result that is not UTF-8      *)
 (*           raises UnicodeDecodeError on the Python side                     *)
-(*   Leave   call_lua_sandbox pops lua_env_stack whatever the way the call    *)
-(*           ended (Dev "EnvKeptOnAbort": not when it ended in an exception)  *)
+(*   Leave   call_lua_sandbox cuts lua_env_stack back to its length at entry  *)
+(*           whatever the way the call ended (Dev "EnvKeptOnAbort": not when  *)
+(*           it ended in an exception on the Python side)                     *)
 (* Environments are table identities (a module instance keeps the             *)
 (* environment its chunk ran in; require() runs the chunk in the environment  *)
 (* on top of the stack), hence the little heap.                               *)
@@ -63,9 +64,10 @@ TopEnv(s) == IF s.stk = <<>> THEN Env0 ELSE s.heap[TopIdx(s)]
 
 Reset(s) == IF s.stk = <<>> THEN [s EXCEPT !.loaded = [m \in Mods |-> NoInst]] ELSE s
 Push(s)  == [s EXCEPT !.heap = Append(@, TopEnv(s)), !.stk = Append(@, Len(s.heap) + 1)]
-Leave(s, aborted) ==
+\* entry = length of the stack when call_lua_sandbox was entered: everything pushed since is removed
+Leave(s, entry, aborted) ==
   IF aborted /\ "EnvKeptOnAbort" \in Dev THEN s
-  ELSE IF s.stk = <<>> THEN s ELSE [s EXCEPT !.stk = SubSeq(@, 1, Len(@) - 1)]
+  ELSE IF Len(s.stk) <= entry THEN s ELSE [s EXCEPT !.stk = SubSeq(@, 1, entry)]
 \* load (or find in package.loaded) module m; its chunk runs in the environment on top of the stack
 Load(s, m) == IF s.loaded[m].on THEN s ELSE [s EXCEPT !.loaded[m] = [on |-> TRUE, n |-> 0, env |-> TopIdx(s)]]
 
@@ -92,12 +94,12 @@ Body(s, k) ==
          [] k = "sget" -> R(s1, "val", s1.heap[inst.env].s, FALSE)
 
 Out(k, res, v, ires, iv) == [k |-> k, res |-> res, v |-> v, ires |-> ires, iv |-> iv]
-InvS(s, k) == LET b == Body(Push(Reset(s)), k) IN [s |-> Leave(b.s, b.ab), res |-> b.res, v |-> b.v]
+InvS(s, k) == LET b == Body(Push(Reset(s)), k) IN [s |-> Leave(b.s, Len(s.stk), b.ab), res |-> b.res, v |-> b.v]
 InvN(s, k) ==
   LET s1 == Load(Push(Reset(s)), "N")
       s2 == [s1 EXCEPT !.heap[s1.loaded["N"].env].g = "set"]            \* MARK = "set" in the module's environment
       i == InvS(s2, Inner(k))                                            \* nested: the stack is not empty, no reset
-  IN [s |-> Leave(i.s, FALSE), o |-> Out(k, "val", "", i.res, i.v)]
+  IN [s |-> Leave(i.s, Len(s.stk), FALSE), o |-> Out(k, "val", "", i.res, i.v)]
 Invoke(s, k) ==
   IF k = "page" THEN [s |-> [s EXCEPT !.stk = <<>>], o |-> Out(k, "page", "", "none", "")]
   ELSE IF k \in Nested THEN InvN(s, k)
